@@ -210,6 +210,12 @@ func handleUIDStore(deps ServerDeps, conn net.Conn, tag string, parts []string, 
 		return
 	}
 
+	// RFC 3501: the flags of a mailbox selected with EXAMINE cannot be changed
+	if state.ReadOnly {
+		deps.SendResponse(conn, fmt.Sprintf("%s NO [READ-ONLY] Mailbox is read-only", tag))
+		return
+	}
+
 	// Get appropriate database (user or role mailbox)
 	targetDB, targetUserID, err := deps.GetSelectedDB(state)
 	if err != nil {
@@ -499,6 +505,12 @@ func flagSetToString(flagSet map[string]bool) string {
 func handleUIDExpunge(deps ServerDeps, conn net.Conn, tag string, parts []string, state *models.ClientState) {
 	if len(parts) < 4 {
 		deps.SendResponse(conn, fmt.Sprintf("%s BAD UID EXPUNGE requires UID sequence", tag))
+		return
+	}
+
+	// A mailbox selected with EXAMINE is read-only: nothing is expunged
+	if state.ReadOnly {
+		deps.SendResponse(conn, fmt.Sprintf("%s NO [READ-ONLY] Mailbox is read-only", tag))
 		return
 	}
 
